@@ -37,7 +37,12 @@ def run(ctx):
         "at least the base name (frame_file_shown), cause links point to older cells in every API-built heap incl. clones "
         "(built_causeWF) so the fuel never runs out (render_fuel_irrelevant) and a Detail ends with the WHOLE Detail of its "
         "*Error cause (detail_renders_cause, fmtV_renders_cause); errors.Is/As through Wrap/WrapTyped/NewWithCause reach the "
-        "cause (wrap_is_reaches_cause, as_finds_error); Recovery hands the handler one new error caused by the panic value "
+        "cause (wrap_is_reaches_cause, as_finds_error; walkFuel is proved sufficient - is_walk_fuel_enough - and "
+        "wrap_is_transparent / is_through_constructors / errors_is_stable are fuel-free); histories: after ANY sequence of calls only links are written "
+        "(history_only_links), one Append changes only what ends in the accumulator's last cell under any aliasing and the "
+        "separation is an invariant (append_touches_only_accumulator, append_keeps_separation, "
+        "append_chain_others_unchanged), WrappedErrors elements are independent (wrapped_elem_independent; CONTRAST "
+        "cached_tail_copied_by_value_breaks_independence); Recovery hands the handler one new error caused by the panic value "
         "(recovery_hands_cause, recovery_string); the Log* record (log_record_spec). wrap_nil / wrapTyped_nil / "
         "wrap_idempotent / error_or_nil / capture_records_creator / copy_keeps_stack / caused_by_structure / "
         "detail_foreign_or_no_cause / log_record_spec are unfoldings of the transcription (they carry the transcription, "
